@@ -134,13 +134,13 @@ def max_hops(prog):
 def one_handoff(seed, i, res):
     rng = random.Random("%s:C06:h:%d" % (seed, i))
     g = gen.ProgGen(rng, max_depth=rng.choice([3, 4, 5, 7]), max_nodes=rng.choice([12, 25, 40]), value_depth=1, allow_tb=False,
-                    remote_vias=("same", "thread", "fork", "fork"), act_styles=["with", "ctx_finish", "run_finish", "ActionType"], fail_p=0.2)
+                    remote_vias=("same", "thread", "fork", "fork"), act_styles=["with", "ctx_finish", "run_finish", "ActionType", "start_task", "as_task"], fail_p=0.2)
     # make remote nodes frequent
     prog = g.program()
     tries = 0
     while max_hops(prog) == 0 and tries < 20:
         g = gen.ProgGen(rng, max_depth=4, max_nodes=25, value_depth=1, allow_tb=False, remote_vias=("same", "thread", "fork", "fork"),
-                        act_styles=["with", "ctx_finish", "run_finish", "ActionType"], fail_p=0.2)
+                        act_styles=["with", "ctx_finish", "run_finish", "ActionType", "start_task", "as_task"], fail_p=0.2)
         prog = g.program()
         tries += 1
     if rng.random() < 0.3:
